@@ -130,6 +130,8 @@ def gen_bulk():
     out = []
     for n in (65534, 65535):
         out.append({"cls": "bulk", "kind": "s", "n": n})
+    for n in (255, 256, 65535, 65536, 65537, 70000, 131073):
+        out.append({"cls": "bulk", "kind": "sl", "n": n})
     for n in (65535, 65536, 65537):
         out.append({"cls": "bulk", "kind": "a", "n": n})
         out.append({"cls": "bulk", "kind": "o", "n": n})
